@@ -326,6 +326,25 @@ def grouped(flags: int, order: bool, last: int, how: int, n: int, s: str, pos: i
     return res.options(False) == exp and res.arguments(False) == exp_args and res.option("n") == exp.get("num") and res.option("t") == exp.get("tag", "dflt")
 
 
+def int_values(n: int, spell: int, lenient: bool) -> bool:
+    """
+    pre: PART["lo"] <= n <= PART["hi"] and 0 <= spell <= 2
+    post: _
+    """
+    # integer values far beyond what a float represents exactly come back as exactly that integer (option and positional)
+    spell = _conc_small(spell, 3)
+    tokens = [["--num=" + str(n)], ["-n" + str(n)], ["--num", str(n)]][spell]
+    if spell == 2 and n < 0:
+        return True
+    res = DefaultArgsParser().parse(ArgvArgs(["prog"] + tokens), pfmt.SKELS_ALL["S13"].fmt, lenient)
+    if res.option("num") != n or type(res.option("num")) is not int:
+        return False
+    if n < 0:
+        return True
+    res2 = DefaultArgsParser().parse(ArgvArgs(["prog", "--", str(n)]), pfmt.S3.fmt, lenient)
+    return res2.argument("a") == n and type(res2.argument("a")) is int
+
+
 def pfmt_parse(o, text):
     if not isinstance(text, str):
         return text                    # a default of the declared native type is reported as it is
@@ -362,5 +381,8 @@ def conditions(tier):
       conds.append({"name": "grouped[S13,%s]" % ["flags only", "ending in -n", "ending in -t"][last], "fn": grouped, "timeout": t, "part": {"skel": "S13", "last": last},
                   "bounds": "grouped short options on format S13 (-v, -q flags; -n INTEGER required value; -t optional text value): every subset and order of the flags, optionally ended by a value option with its value attached / in the next token / absent; "
                             "int values in [-9,12], text values from {a,b,1}; before / after a positional; strict and lenient"})
+    for lo, hi in [(2 ** 53 - 4, 2 ** 53 + 6), (10 ** 18 - 3, 10 ** 18 + 3), (-(2 ** 63) - 2, -(2 ** 63) + 2), (10 ** 40, 10 ** 40 + 2)]:
+        conds.append({"name": "int_values[%s..]" % (str(lo)[:22] + ("..." if len(str(lo)) > 22 else "")), "fn": int_values, "timeout": t, "part": {"lo": lo, "hi": hi},
+                      "bounds": "every int in [%s, +%d]: INTEGER option (three spellings) and INTEGER argument report exactly that integer" % (str(lo)[:22], hi - lo)})
     conds.append({"name": "line_twin", "fn": line_twin, "timeout": t, "expect": "refute", "part": {"skel": "S1", "sp": 3}, "bounds": "reachability twin"})
     return conds
